@@ -156,9 +156,17 @@ Definition apply_conv (t : ty) (c : option conv) : ty :=
 
 (* ---- emit.c ---------------------------------------------------------------------- *)
 
-(* l, r: comb of the (possibly converted) operands; res: comb of the operator node.
+(* an operand whose comb is an item enum type: expr_conv_enumtype -> expr_conv_enumerator
+   retypes it COMB_TYPE_INT (since /repo 2ca194c; before, the comb stayed ENUMTYPE and the
+   emitters of < <= > >= % == != had no case for it: assert(0)) *)
+Definition item_int (t : ty) : ty := match t with TEnum => TInt | _ => t end.
+
+(* l, r: comb of the (possibly converted) operands as the typechecker computed them (an item
+   enumerator operand still TEnum here, see item_int); res: comb of the operator node.
    None = the emitter has no case: print_error_msg + assert(0). *)
-Definition emit_bin (o : binop) (l r res : ty) : option vmop :=
+Definition emit_bin (o : binop) (l0 r0 res : ty) : option vmop :=
+  let l := item_int l0 in
+  let r := item_int r0 in
   match o with
   | Add =>
       if is_num res then Some (VBin Add res)
@@ -168,26 +176,25 @@ Definition emit_bin (o : binop) (l r res : ty) : option vmop :=
       match l, r with
       | TInt, TInt => Some (VBin Mod TInt)
       | TLong, TLong => Some (VBin Mod TLong)
-      | _, _ => None                            (* enum % int: no case *)
+      | _, _ => None
       end
   | OLt | OGt | OLe | OGe =>
       match l, r with
       | TInt, TInt | TLong, TLong | TFloat, TFloat | TDouble, TDouble | TChar, TChar =>
           Some (VBin o l)
-      | _, _ => None                            (* any enum operand: no case *)
+      | _, _ => None
       end
   | OEq | ONe =>
       match l, r with
       | TBool, TBool => Some (VBin o TInt)
       | TInt, TInt | TLong, TLong | TFloat, TFloat | TDouble, TDouble
       | TChar, TChar | TString, TString => Some (VBin o l)
-      | TEnum, TEnum => Some (VBin o TInt)
-      | _, _ => None                            (* enum == int: no case *)
+      | _, _ => None
       end
   | BAnd | BOr | BXor | Shl | Shr =>
       match l, r with
       | TLong, TLong => Some (VBin o TLong)
-      | (TEnum | TInt), (TEnum | TInt) => Some (VBin o TInt)
+      | TInt, TInt => Some (VBin o TInt)
       | _, _ => None
       end
   | And | Or => None                            (* jumps, no opcode *)
